@@ -103,7 +103,7 @@ class VerifyMixin:
         self.paths += len(terminals)
         n_normal = 0
         for pi, (o, s1) in enumerate(terminals):
-            self.oblige(s1, f'vacuity.path_feasible.{pi}', True, kind='cover', expect='sat')
+            self.oblige(s1, f'vacuity.path_feasible.{pi}', True, kind='cover-path', expect='sat')
         for o, s1 in terminals:
             old = s1.ghost.get('old_snapshot') if c.old_at == 'acquire' else None
             if old is None and c.old_at == 'acquire' and self_val is not None and isinstance(self_val, Ref):
